@@ -229,4 +229,104 @@ theorem T0x1005_Encode_total (fuel : Nat) (p : model_T0x1005) (h1 : p.StartTime.
   simp only [model_T0x1005_Encode, Time2BCD_ok _ _ h1, Time2BCD_ok _ _ h2, copyAt]
   go_total
 
+/-! ### the alarm-sign block of the active-safety messages and the attachment announcement 0x1210 -/
+
+theorem AlarmSign_parse_total (fuel : Nat) (p : model_P9208AlarmSign) (d : Bytes) (h : d.length < fuel) :
+    (model_P9208AlarmSign_parse fuel p d).isOk = true := by
+  simp only [model_P9208AlarmSign_parse, model_P9208AlarmSign_parse_j1, model_P9208AlarmSign_getTerminalIDLen]
+  go_total_bcd h
+
+/-- the value the alarm-sign parser returns -/
+def asV (fuel : Nat) (p : model_P9208AlarmSign) (d : Bytes) : model_P9208AlarmSign :=
+  match model_P9208AlarmSign_parse fuel p d with | .ok r => r | _ => p
+
+theorem AlarmSign_parse_ok (fuel : Nat) (p : model_P9208AlarmSign) (d : Bytes) (h : d.length < fuel) :
+    model_P9208AlarmSign_parse fuel p d = X.ok (asV fuel p d) := by
+  have := AlarmSign_parse_total fuel p d h
+  unfold asV
+  cases hr : model_P9208AlarmSign_parse fuel p d with
+  | ok r => rfl
+  | panic => rw [hr] at this; cases this
+  | fuel => rw [hr] at this; cases this
+
+theorem slice_as {β : Type} (fuel : Nat) (p : model_P9208AlarmSign) (b : Bytes) (lo hi : Int) (f : model_P9208AlarmSign → X β) (h : b.length < fuel) :
+    X.bind (slice b lo hi) (fun t => X.bind (model_P9208AlarmSign_parse fuel p t) f) = X.bind (slice b lo hi) (fun t => f (asV fuel p t)) := by
+  unfold slice
+  split
+  · simp only [X.bind_ok]
+    rw [AlarmSign_parse_ok fuel _ _ (by simp only [List.length_take, List.length_drop]; omega)]
+    rfl
+  · rfl
+
+/-- the attachment list of 0x1210: every round checks its own bounds (`start >= len(body)`, then the name length plus
+four bytes of size), so the loop returns for every body, every count and every starting offset -/
+theorem T0x1210_loop_total : ∀ (fuel : Nat) (t : model_T0x1210) (j : jt808_JTMessage) (body : Bytes) (idLen asl cursor start i : Int),
+    0 ≤ start → i ≤ (t.AttachCount.toNat : Int) → (t.AttachCount.toNat : Int) - i < (fuel : Int) →
+    (model_T0x1210_Parse_loop1 fuel t j body idLen asl cursor start i).isOk = true
+  | 0, t, j, body, idLen, asl, cursor, start, i, hs, hi, hf => by omega
+  | fuel + 1, t, j, body, idLen, asl, cursor, start, i, hs, hi, hf => by
+    unfold model_T0x1210_Parse_loop1
+    simp only [sliceTo, sliceFrom, slice, idx_ite, u32_ite, bind_ite', X.bind_ok, X.bind_panic, len_eq, List.length_take, List.length_drop]
+    simp only [X.isOk_ite_iff, X.isOk_ok, X.isOk_panic, implies_true, and_true, true_and]
+    repeat' (first | (intro _) | constructor)
+    all_goals first
+      | trivial
+      | (apply T0x1210_loop_total
+         · simp only [decide_eq_true_eq, decide_eq_false_iff_not] at *; omega
+         · simp only [decide_eq_true_eq, decide_eq_false_iff_not, Int.ofNat_eq_natCast] at *; omega
+         · simp only [decide_eq_true_eq, decide_eq_false_iff_not, Int.ofNat_eq_natCast] at *; push_cast at *; omega)
+      | (simp only [bne_iff_ne, beq_iff_eq, ne_eq, Bool.not_eq_true, Bool.not_eq_false, decide_eq_true_eq, decide_eq_false_iff_not,
+           Decidable.not_not, Int.reduceToNat, Bool.false_eq_true, Bool.true_eq_false, Int.ofNat_eq_natCast, len_eq, Nat.sub_zero] at *
+         omega)
+
+theorem idLen_ok (fuel : Nat) (p : model_P9208AlarmSign) : ∃ v, 0 ≤ v ∧ model_P9208AlarmSign_getTerminalIDLen fuel p = X.ok v := by
+  unfold model_P9208AlarmSign_getTerminalIDLen
+  repeat' split
+  all_goals exact ⟨_, by omega, rfl⟩
+
+theorem asLen_ok (fuel : Nat) (p : model_P9208AlarmSign) : ∃ v, 0 ≤ v ∧ model_P9208AlarmSign_getAlarmSignLen fuel p = X.ok v := by
+  unfold model_P9208AlarmSign_getAlarmSignLen
+  repeat' split
+  all_goals exact ⟨_, by omega, rfl⟩
+
+/-- behind the length guard, for whatever identifier and alarm-sign lengths the dialect has -/
+theorem T0x1210_j3_total (fuel : Nat) (t : model_T0x1210) (j : jt808_JTMessage) (idLen asl : Int) (h1 : 0 ≤ idLen) (h2 : 0 ≤ asl)
+    (hf : j.Body.length + 256 < fuel) (hg : ¬ ((j.Body.length : Int) < idLen + asl + 32 + 1 + 1)) :
+    (model_T0x1210_Parse_j3 fuel t j j.Body idLen asl).isOk = true := by
+  have hb : j.Body.length < fuel := by omega
+  have loop : ∀ (t : model_T0x1210) (idLen asl cursor : Int), 0 ≤ cursor →
+      (model_T0x1210_Parse_loop1 fuel t j j.Body idLen asl cursor cursor 0).isOk = true := by
+    intro t idLen asl cursor hc
+    have := t.AttachCount.toNat_lt
+    exact T0x1210_loop_total fuel t j j.Body idLen asl cursor cursor 0 hc (by omega) (by omega)
+  simp only [model_T0x1210_Parse_j3, model_T0x1210_Parse_j2]
+  simp only [slice_as _ _ _ _ _ _ hb]
+  simp only [slice, idx_ite, bind_ite', X.bind_ok, X.bind_panic, len_eq, List.length_take, List.length_drop]
+  simp only [X.isOk_ite_iff, X.isOk_ok, X.isOk_panic, implies_true, and_true, true_and]
+  repeat' (first | (intro _) | constructor)
+  all_goals first
+    | trivial
+    | (apply loop; simp only [decide_eq_true_eq, decide_eq_false_iff_not] at *; omega)
+    | (simp only [bne_iff_ne, beq_iff_eq, ne_eq, Bool.not_eq_true, Bool.not_eq_false, decide_eq_true_eq, decide_eq_false_iff_not,
+         Decidable.not_not, Int.reduceToNat, Bool.false_eq_true, Bool.true_eq_false, Int.ofNat_eq_natCast, len_eq, Nat.sub_zero] at *
+       omega)
+
+theorem T0x1210_Parse_total (fuel : Nat) (t : model_T0x1210) (j : jt808_JTMessage) (hf : j.Body.length + 256 < fuel) :
+    (model_T0x1210_Parse fuel t j).isOk = true := by
+  obtain ⟨a, ha, ea⟩ := idLen_ok fuel t.P9208AlarmSign
+  obtain ⟨b, hb, eb⟩ := asLen_ok fuel t.P9208AlarmSign
+  simp only [model_T0x1210_Parse, ea, eb, X.bind_ok]
+  by_cases hty : t.P9208AlarmSign.ActiveSafetyType = 2
+  · simp only [hty, beq_self_eq_true, if_true, X.bind_ok]
+    by_cases hg : (len j.Body) < ((0 : Int) + b + 32 + 1 + 1)
+    · simp only [hg, decide_true, if_true]; rfl
+    · simp only [hg, decide_false, Bool.false_eq_true, if_false]
+      exact T0x1210_j3_total fuel t j 0 b (by omega) hb hf (by simpa using hg)
+  · have c : (t.P9208AlarmSign.ActiveSafetyType == (2 : UInt8)) = false := by simpa using hty
+    simp only [c, Bool.false_eq_true, if_false, X.bind_ok]
+    by_cases hg : (len j.Body) < (a + b + 32 + 1 + 1)
+    · simp only [hg, decide_true, if_true]; rfl
+    · simp only [hg, decide_false, Bool.false_eq_true, if_false]
+      exact T0x1210_j3_total fuel t j a b ha hb hf (by simpa using hg)
+
 end JT.Gen.GoModel
